@@ -49,7 +49,35 @@ DId(n) == "d" \o ToString(n)
 MId(n) == "m" \o ToString(n)
 
 NoEv == [name |-> "Init", who |-> "", cls |-> "", id |-> "", to |-> "", amt |-> 0,
-         data |-> "", cname |-> "", ok |-> TRUE, panic |-> FALSE, gen |-> ""]
+         data |-> "", cname |-> "", ok |-> TRUE, panic |-> FALSE, gen |-> "", form |-> ""]
+
+(***************************************************************************)
+(* Unusual inputs (round 7).  ev.cls / ev.id name the object meant; ev.form *)
+(* says how the message WRITES the two ids (the harness builds the strings):*)
+(*   ""           as they are                                               *)
+(*   "split"      DenomId = <class>/<first half of the token id>, Id = the  *)
+(*                rest (store keys are the ids joined by "/", types/keys.go; *)
+(*                generated ids are hex strings, so the re-split key is     *)
+(*                another key: nothing there, and no such class)            *)
+(*   "idupper" / "idprefix"   the token id in upper case / without its last *)
+(*                character: another key, nothing there                     *)
+(*   "idspace"    the token id between blanks: MsgMintMT trims the id       *)
+(*                (msg_server.go), the other messages do not                *)
+(*   "clsupper" / "clsprefix" / "clsspace"   the same for the class id (no  *)
+(*                message trims it)                                         *)
+(* An account that cannot sign ("mod": a module account in the harness) can *)
+(* be named as recipient and hold tokens; a message naming it as sender is  *)
+(* refused before it reaches the module.                                    *)
+(***************************************************************************)
+IdForms == {"idupper", "idprefix", "idspace"}
+ClsForms == {"clsupper", "clsprefix", "clsspace"}
+FormsAll == {"", "split"} \cup IdForms \cup ClsForms
+FormsGen == {"", "idupper", "idspace", "clsprefix"}    \* the probe generator's choice
+Unsignable == {"mod"}
+(* does the written class id name the class (lookups by the messages that authorize)? *)
+ClsFound(f) == f \notin ClsForms \cup {"split"}
+(* do the written ids address the balance / supply entries of (cls, id)? *)
+SameEntry(f) == f = ""
 
 -----------------------------------------------------------------------------
 Fail(s, w) == [ok |-> FALSE, panic |-> FALSE, st |-> s, why |-> w, gen |-> ""]
@@ -81,7 +109,8 @@ SubBal(s, bal, a, c, m, amt) ==
 
 (* msg_server.go IssueDenom: ValidateBasic (name required), genDenomID, SetDenom *)
 DoIssueDenom(s, who, cname, data) ==
-  IF cname \in {"", " "} THEN Fail(s, "invalid")
+  IF who \in Unsignable THEN Fail(s, "unsignable")
+  ELSE IF cname \in {"", " "} THEN Fail(s, "invalid")
   ELSE
     LET id == DId(s.seqD) IN
     Done([s EXCEPT
@@ -93,15 +122,16 @@ DoIssueDenom(s, who, cname, data) ==
          id)
 
 (* msg_server.go MintMT -> keeper.go IssueMT / MintMT *)
-DoMintMT(s, who, c, m, amt, data, to) ==
-  IF c = "" \/ amt <= 0 \/ (m # "" /\ data # "") THEN Fail(s, "invalid")      \* ValidateBasic
+DoMintMT(s, who, c, m, amt, data, to, f) ==
+  IF who \in Unsignable THEN Fail(s, "unsignable")
+  ELSE IF c = "" \/ amt <= 0 \/ (m # "" /\ data # "") THEN Fail(s, "invalid")      \* ValidateBasic
   ELSE
     LET rcpt == IF to = "" THEN who ELSE to
-        auth == AuthErr(s, c, who)
+        auth == IF ClsFound(f) THEN AuthErr(s, c, who) ELSE "no_class"
     IN
     IF auth # "" THEN Fail(s, auth)
     ELSE IF m # "" THEN
-      IF ~HasMT(s, c, m) THEN Fail(s, "no_mt")
+      IF ~HasMT(s, c, m) \/ f \in {"idupper", "idprefix"} THEN Fail(s, "no_mt")   \* the id is trimmed first
       ELSE IF s.maxU - SupOf(s, c, m) < amt THEN Fail(s, "overflow")          \* IncreaseMTSupply
       ELSE
         LET a == AddBal(s, s.bal, rcpt, c, m, amt) IN
@@ -123,46 +153,50 @@ DoMintMT(s, who, c, m, amt, data, to) ==
         IN IF ~a.ok THEN Fail(s, "overflow") ELSE Done([s1 EXCEPT !.bal = a.bal], id)
 
 (* msg_server.go EditMT -> keeper.go EditMT *)
-DoEditMT(s, who, c, m, data) ==
-  IF c = "" \/ m = "" THEN Fail(s, "invalid")
+DoEditMT(s, who, c, m, data, f) ==
+  IF who \in Unsignable THEN Fail(s, "unsignable")
+  ELSE IF c = "" \/ m = "" THEN Fail(s, "invalid")
   ELSE
-    LET auth == AuthErr(s, c, who) IN
+    LET auth == IF ClsFound(f) THEN AuthErr(s, c, who) ELSE "no_class" IN
     IF auth # "" THEN Fail(s, auth)
-    ELSE IF ~HasMT(s, c, m) THEN Fail(s, "no_mt")
+    ELSE IF ~HasMT(s, c, m) \/ f \in IdForms THEN Fail(s, "no_mt")
     ELSE IF data = KEEP THEN Done(s, "")
     ELSE Done([s EXCEPT !.mts[c][m].data = data], "")
 
 (* msg_server.go TransferMT -> keeper.go TransferOwner -> balance.go Transfer *)
-DoTransferMT(s, who, c, m, amt, to) ==
-  IF c = "" \/ m = "" \/ amt <= 0 THEN Fail(s, "invalid")
-  ELSE IF BalOf(s, who, c, m) < amt THEN Fail(s, "insufficient")
+DoTransferMT(s, who, c, m, amt, to, f) ==
+  IF who \in Unsignable THEN Fail(s, "unsignable")
+  ELSE IF c = "" \/ m = "" \/ amt <= 0 THEN Fail(s, "invalid")
+  ELSE IF ~SameEntry(f) \/ BalOf(s, who, c, m) < amt THEN Fail(s, "insufficient")
   ELSE
     LET b1 == SubBal(s, s.bal, who, c, m, amt)
         a == AddBal(s, b1, to, c, m, amt)
     IN IF ~a.ok THEN Fail(s, "overflow") ELSE Done([s EXCEPT !.bal = a.bal], "")
 
 (* msg_server.go BurnMT -> keeper.go BurnMT *)
-DoBurnMT(s, who, c, m, amt) ==
-  IF c = "" \/ m = "" \/ amt <= 0 THEN Fail(s, "invalid")
-  ELSE IF BalOf(s, who, c, m) < amt THEN Fail(s, "insufficient")
+DoBurnMT(s, who, c, m, amt, f) ==
+  IF who \in Unsignable THEN Fail(s, "unsignable")
+  ELSE IF c = "" \/ m = "" \/ amt <= 0 THEN Fail(s, "invalid")
+  ELSE IF ~SameEntry(f) \/ BalOf(s, who, c, m) < amt THEN Fail(s, "insufficient")
   ELSE Done([s EXCEPT !.bal = SubBal(s, s.bal, who, c, m, amt),
                       !.mts[c][m].supply = Wrap(s, @ - amt)], "")             \* decreaseMTSupply
 
 (* msg_server.go TransferDenom -> keeper.go TransferDenomOwner *)
-DoTransferDenom(s, who, c, to) ==
-  IF c = "" THEN Fail(s, "invalid")
+DoTransferDenom(s, who, c, to, f) ==
+  IF who \in Unsignable THEN Fail(s, "unsignable")
+  ELSE IF c = "" THEN Fail(s, "invalid")
   ELSE
-    LET auth == AuthErr(s, c, who) IN
+    LET auth == IF ClsFound(f) THEN AuthErr(s, c, who) ELSE "no_class" IN
     IF auth # "" THEN Fail(s, auth)
     ELSE Done([s EXCEPT !.cls[c].owner = to], "")
 
 Apply(s, e) ==
   CASE e.name = "IssueDenom"    -> DoIssueDenom(s, e.who, e.cname, e.data)
-    [] e.name = "MintMT"        -> DoMintMT(s, e.who, e.cls, e.id, e.amt, e.data, e.to)
-    [] e.name = "EditMT"        -> DoEditMT(s, e.who, e.cls, e.id, e.data)
-    [] e.name = "TransferMT"    -> DoTransferMT(s, e.who, e.cls, e.id, e.amt, e.to)
-    [] e.name = "BurnMT"        -> DoBurnMT(s, e.who, e.cls, e.id, e.amt)
-    [] e.name = "TransferDenom" -> DoTransferDenom(s, e.who, e.cls, e.to)
+    [] e.name = "MintMT"        -> DoMintMT(s, e.who, e.cls, e.id, e.amt, e.data, e.to, e.form)
+    [] e.name = "EditMT"        -> DoEditMT(s, e.who, e.cls, e.id, e.data, e.form)
+    [] e.name = "TransferMT"    -> DoTransferMT(s, e.who, e.cls, e.id, e.amt, e.to, e.form)
+    [] e.name = "BurnMT"        -> DoBurnMT(s, e.who, e.cls, e.id, e.amt, e.form)
+    [] e.name = "TransferDenom" -> DoTransferDenom(s, e.who, e.cls, e.to, e.form)
     [] e.name = "EndBlock"      -> Done(s, "")
     [] OTHER -> Fail(s, "unknown")
 
@@ -170,8 +204,8 @@ Apply(s, e) ==
 (* Ghosts, from the observed (s, e, t) only: every class / token id seen so
    far, and whether the id generated by the last event had been seen before *)
 AllMTs(t) == UNION {DOMAIN t.mts[c] : c \in DOMAIN t.mts}
-GhostInit == [everD |-> {}, everM |-> {}, reused |-> FALSE, handed |-> {}]
-GhostOf(t) == [everD |-> DOMAIN t.cls, everM |-> AllMTs(t), reused |-> FALSE, handed |-> {}]
+GhostInit == [everD |-> {}, everM |-> {}, reused |-> FALSE, handed |-> {}, exOwner |-> {}, exHolder |-> {}]
+GhostOf(t) == [everD |-> DOMAIN t.cls, everM |-> AllMTs(t), reused |-> FALSE, handed |-> {}, exOwner |-> {}, exHolder |-> {}]
 
 IsIssue(e) == e.name = "IssueDenom" /\ e.ok
 IsMintNew(e) == e.name = "MintMT" /\ e.ok /\ e.id = ""
@@ -181,7 +215,16 @@ GhostStep(g, s, e, t) ==
    everM |-> g.everM \cup AllMTs(t) \cup (IF IsMintNew(e) THEN {e.gen} ELSE {}),
    reused |-> \/ IsIssue(e) /\ e.gen \in (g.everD \cup DOMAIN s.cls)
               \/ IsMintNew(e) /\ e.gen \in (g.everM \cup AllMTs(s)),
-   handed |-> g.handed \cup {c \in DOMAIN s.cls : c \in DOMAIN t.cls /\ t.cls[c].owner # s.cls[c].owner}]
+   handed |-> g.handed \cup {c \in DOMAIN s.cls : c \in DOMAIN t.cls /\ t.cls[c].owner # s.cls[c].owner},
+   exOwner |-> g.exOwner, exHolder |-> g.exHolder]
+(* coverage ghosts, maintained by the trace specification only (never read by a
+   clause): <<c, a>>: a owned class c before; <<a, c, m>>: a held token (c, m) before *)
+CovStep(g, s, e, t) ==
+  [GhostStep(g, s, e, t) EXCEPT
+     !.exOwner = g.exOwner \cup
+       {<<c, s.cls[c].owner>> : c \in {d \in DOMAIN s.cls : d \in DOMAIN t.cls /\ t.cls[d].owner # s.cls[d].owner}},
+     !.exHolder = g.exHolder \cup
+       {x \in UsersOf(s) \X (DOMAIN s.cls) \X AllMTs(s) : BalOf(s, x[1], x[2], x[3]) > 0}]
 
 -----------------------------------------------------------------------------
 (***************************************************************************)
@@ -277,6 +320,54 @@ C15_FreshIds(s, e, t, g) ==
 Rejected_NoEffect(s, e, t) ==
   (~e.ok \/ e.name = "EndBlock") => t = s
 
+(***************************************************************************)
+(* The same statements on the RAW STORE (round 7).  The harness scans the   *)
+(* mt store after every event and logs, next to the query results above,   *)
+(*   r.cls           the class keys                                        *)
+(*   r.mts[c]        the ids of the token records of class c               *)
+(*   r.sup[c][m]     the token supply entries                              *)
+(*   r.bal[a][c][m]  the balance entries of EVERY address a (account names *)
+(*                   for the tracked accounts, the address otherwise)      *)
+(* and what the user-facing queries answer: q.sup[c][m] (MTSupply),        *)
+(* q.bal[a][c][m] (Balances, page by page) for the tracked accounts.  The  *)
+(* state's own balances are the keeper's getter, its supplies the MT query.*)
+(* In the model queries are functions of the store: traces only.           *)
+(***************************************************************************)
+RawPairs(r) ==
+  UNION {{<<c, m>> : m \in r.mts[c]} : c \in DOMAIN r.mts}
+    \cup UNION {{<<c, m>> : m \in DOMAIN r.sup[c]} : c \in DOMAIN r.sup}
+    \cup UNION {UNION {{<<c, m>> : m \in DOMAIN r.bal[a][c]} : c \in DOMAIN r.bal[a]} : a \in DOMAIN r.bal}
+RawBal(r, a, c, m) ==
+  IF a \in DOMAIN r.bal /\ c \in DOMAIN r.bal[a] /\ m \in DOMAIN r.bal[a][c] THEN r.bal[a][c][m] ELSE 0
+RawSup(r, c, m) == IF c \in DOMAIN r.sup /\ m \in DOMAIN r.sup[c] THEN r.sup[c][m] ELSE 0
+
+(* For every multi-token the sum of the balances of ALL holders in the store
+   (not only the tracked accounts) equals the recorded supply; nobody holds,
+   and no supply is recorded for, a token without a record *)
+C15_StoreSum(r) ==
+  \A x \in RawPairs(r) :
+    /\ SumOver([a \in DOMAIN r.bal |-> RawBal(r, a, x[1], x[2])], DOMAIN r.bal) = RawSup(r, x[1], x[2])
+    /\ (RawSup(r, x[1], x[2]) # 0 \/ \E a \in DOMAIN r.bal : RawBal(r, a, x[1], x[2]) # 0) =>
+         x[1] \in DOMAIN r.mts /\ x[2] \in r.mts[x[1]]
+
+(* What users are told is what the store holds: the supply of every token
+   (MT query = the state's supply, MTSupply query) and the balances of the
+   tracked accounts (Balances query, keeper getter = the state's balances) *)
+C15_Reported(t, r, q) ==
+  /\ \A x \in RawPairs(r) \cup Pairs(t) :
+       /\ SupOf(t, x[1], x[2]) = RawSup(r, x[1], x[2])
+       /\ (x[1] \in DOMAIN q.sup /\ x[2] \in DOMAIN q.sup[x[1]]) => q.sup[x[1]][x[2]] = RawSup(r, x[1], x[2])
+       /\ \A a \in UsersOf(t) :
+            /\ BalOf(t, a, x[1], x[2]) = RawBal(r, a, x[1], x[2])
+            /\ RawBal(q, a, x[1], x[2]) = RawBal(r, a, x[1], x[2])
+  /\ \A x \in Pairs(t) : x[1] \in DOMAIN q.sup /\ x[2] \in DOMAIN q.sup[x[1]]
+
+(* diagnostics: class list and token lists of the queries = the store's *)
+X15_ReadBack(t, r, q) ==
+  /\ DOMAIN t.cls = r.cls
+  /\ \A c \in r.cls : c \in DOMAIN t.mts /\ DOMAIN t.mts[c] = (IF c \in DOMAIN r.mts THEN r.mts[c] ELSE {})
+  /\ DOMAIN r.mts \subseteq r.cls
+
 (* Diagnostics outside the statement: class token-type counter, sequences,
    class records keep name/data, objects never disappear, named recipient of
    a handover becomes the owner *)
@@ -308,7 +399,11 @@ Init == st = Init0 /\ ev = NoEv /\ gh = GhostInit /\ hist = <<>>
 
 E(name, who, c, id, to, amt, data, cname) ==
   [name |-> name, who |-> who, cls |-> c, id |-> id, to |-> to, amt |-> amt,
-   data |-> data, cname |-> cname, ok |-> TRUE, panic |-> FALSE, gen |-> ""]
+   data |-> data, cname |-> cname, ok |-> TRUE, panic |-> FALSE, gen |-> "", form |-> ""]
+EF(name, who, c, id, to, amt, data, cname, f) == [E(name, who, c, id, to, amt, data, cname) EXCEPT !.form = f]
+(* how ids are written: plain in the exhaustive and first generator configs;
+   the probe generator config overrides Forms with FormsAll *)
+Forms == {""}
 
 Step(e) ==
   \* the singleton quantifier makes TLC evaluate Apply once per transition
@@ -328,23 +423,23 @@ IssueDenom ==
   /\ \E who \in Issuers : Step(E("IssueDenom", who, "", "", "", 0, Data1, "n"))
 MintNew ==
   /\ st.seqM <= MaxM
-  /\ \E who \in Users, c \in DenomIds, a \in Amounts, to \in Users \cup {""} :
-       Step(E("MintMT", who, c, "", to, a, Data1, ""))
+  /\ \E who \in Users, c \in DenomIds, a \in Amounts, to \in Users \cup {""}, f \in Forms :
+       Step(EF("MintMT", who, c, "", to, a, Data1, "", f))
 MintMore ==
-  \E who \in Users, c \in DenomIds, m \in MTIds, a \in Amounts, to \in Users :
-    Step(E("MintMT", who, c, m, to, a, "", ""))
+  \E who \in Users, c \in DenomIds, m \in MTIds, a \in Amounts, to \in Users, f \in Forms :
+    Step(EF("MintMT", who, c, m, to, a, "", "", f))
 EditMT ==
-  \E who \in Users, c \in DenomIds, m \in MTIds, d \in DataVals \cup {KEEP} :
-    Step(E("EditMT", who, c, m, "", 0, d, ""))
+  \E who \in Users, c \in DenomIds, m \in MTIds, d \in DataVals \cup {KEEP}, f \in Forms :
+    Step(EF("EditMT", who, c, m, "", 0, d, "", f))
 TransferMT ==
-  \E who \in Users, c \in DenomIds, m \in MTIds, a \in Amounts, to \in Users :
-    Step(E("TransferMT", who, c, m, to, a, "", ""))
+  \E who \in Users, c \in DenomIds, m \in MTIds, a \in Amounts, to \in Users, f \in Forms :
+    Step(EF("TransferMT", who, c, m, to, a, "", "", f))
 BurnMT ==
-  \E who \in Users, c \in DenomIds, m \in MTIds, a \in Amounts :
-    Step(E("BurnMT", who, c, m, "", a, "", ""))
+  \E who \in Users, c \in DenomIds, m \in MTIds, a \in Amounts, f \in Forms :
+    Step(EF("BurnMT", who, c, m, "", a, "", "", f))
 TransferDenom ==
-  \E who \in Users, c \in DenomIds, to \in Users :
-    Step(E("TransferDenom", who, c, "", to, 0, "", ""))
+  \E who \in Users, c \in DenomIds, to \in Users, f \in Forms :
+    Step(EF("TransferDenom", who, c, "", to, 0, "", "", f))
 
 Next == IssueDenom \/ MintNew \/ MintMore \/ EditMT \/ TransferMT \/ BurnMT \/ TransferDenom
 
@@ -354,6 +449,27 @@ Rejects(h) == Cardinality({i \in DOMAIN h : ~h[i].ok})
 GenNext == Next /\ (ev'.ok \/ 3 * Rejects(hist) <= Len(hist) + 2)
 GenSpec == Init /\ [][GenNext]_vars
 GenDepth == atoi(IOEnv.GEN_DEPTH)
+(* Second generator mode (negative probing): like GenNext, but the last
+   ProbeLen events of every behaviour are events the specification REJECTS -
+   a deep state (classes handed over, tokens with holders at zero, supplies
+   burned to nothing or minted to the top) probed with operations that must
+   fail; the first two of them are refusals that depend on the state (not on
+   the shape of the message or the way an id is written).  The driver appends
+   its epilogue, computed from the REAL chain state. *)
+ProbeLen == 4
+BasicWhys == {"unsignable", "invalid"}
+GenNextP ==
+  /\ Next
+  /\ IF Len(hist) < GenDepth - ProbeLen
+     THEN ev'.ok \/ 4 * Rejects(hist) <= Len(hist) + 2
+     ELSE /\ ~ev'.ok
+          /\ (Len(hist) < GenDepth - 2) => (Apply(st, ev').why \notin BasicWhys /\ ev'.form = "")
+          \* TLC prints every successor of the last state (and the orchestrator keeps three of
+          \* them): the very last probe stays with the sender, class and token of the one before
+          /\ (Len(hist) = GenDepth - 1) =>
+               /\ ev'.who = hist[Len(hist)].who /\ ev'.cls = hist[Len(hist)].cls
+               /\ ev'.id \in {hist[Len(hist)].id, ""} /\ ev'.form = ""
+GenSpecP == Init /\ [][GenNextP]_vars
 GenConstraint ==
   /\ Len(hist) <= GenDepth
   /\ (Len(hist) = GenDepth) => PrintT(<<"BEHAVIOUR", ToJson(hist)>>)
